@@ -796,7 +796,7 @@ theorem stream_unsliced (reg : Reg) (rd : Reader) (log : List Entry) (e : Eff) :
   simp [indexFiltered, specStream]
 
 theorem sel0_eq_spec (reg : Reg) (rd : Reader) (log : List Entry) (e : Eff)
-    (hs : ∀ x ∈ rd.timeSel e.timeRange log, x.src ∈ rd.available log)
+    (hs : ∀ n, e.maxMessages = some n → n < 0 → ∀ x ∈ rd.timeSel e.timeRange log, x.src ∈ rd.available log)
     (hk : ∀ t ∈ e.types, reg.known t = true) :
     sel0 reg rd log e = specSelected reg rd log e := by
   unfold sel0 selected specSelected
@@ -810,14 +810,19 @@ theorem sel0_eq_spec (reg : Reg) (rd : Reader) (log : List Entry) (e : Eff)
     · -- the index was cut: nothing is tested at read time
       have hsl' := hsl
       simp only [sliceApplied, hm, Variant.current, Option.isSome_some, Bool.true_and, if_true, Bool.and_eq_true,
-        Bool.not_eq_true', beq_iff_eq] at hsl'
-      obtain ⟨⟨h1, h2⟩, h3⟩ := hsl'
+        Bool.not_eq_true', beq_iff_eq, Bool.not_true, Bool.false_or, nonPos, decide_eq_true_eq] at hsl'
+      obtain ⟨⟨⟨h1, h2⟩, h3⟩, h4⟩ := hsl'
+      by_cases hz : n = 0
+      · -- N = 0: the index is cut to nothing, and nothing is what the specification asks for
+        subst hz
+        simp [stream, hsl, hm, stored, sliceN]
+      have hneg : n < 0 := by omega
       have hall : ∀ x ∈ (rd.timeSel e.timeRange log).filter (fun x => e.types.contains x.type),
           readOk reg rd log e x = true := by
         intro x hx
         obtain ⟨hx1, hx2⟩ := List.mem_filter.1 hx
         have hx2' : x.type ∈ e.types := by simpa using hx2
-        simp [readOk, requestedSrcs, h1, h2, h3, hk _ hx2', hs x hx1]
+        simp [readOk, requestedSrcs, h1, h2, h3, hk _ hx2', hs n hm hneg x hx1]
       have hidx : indexFiltered rd log e false =
           (rd.timeSel e.timeRange log).filter (fun x => e.types.contains x.type) := by
         simp [indexFiltered, h1]
@@ -838,7 +843,7 @@ theorem sel0_eq_spec (reg : Reg) (rd : Reader) (log : List Entry) (e : Eff)
         exact stream_unsliced reg rd log e
       rw [hstream]
       simp only [stored, hm, Variant.current, if_true, sliceN]
-      have hsl2 : sliceApplied ⟨true, true, true, true, true⟩ rd log e false = false := hsl
+      have hsl2 : sliceApplied ⟨true, true, true, true, true, true⟩ rd log e false = false := hsl
       rw [hsl2]
       by_cases hn : n < 0
       · have : ¬ (0 ≤ n) := by omega
@@ -873,7 +878,7 @@ theorem sel0_nil_of_nothing {reg : Reg} {rd : Reader} {log : List Entry} {e : Ef
 
 /-- `resultOf` is the specification of a fresh read. -/
 theorem resultOf_eq_spec {reg : Reg} (hd : reg.Disjoint) (rd : Reader) (log : List Entry) (a : Args)
-    (hs : ∀ x ∈ rd.timeSel a.timeRange log, x.src ∈ rd.available log)
+    (hs : ∀ n, a.maxMessages = some n → n < 0 → ∀ x ∈ rd.timeSel a.timeRange log, x.src ∈ rd.available log)
     (hk : ∀ t ∈ (eff reg rd log a).types, reg.known t = true) :
     resultOf reg rd log a = freshSpec reg rd log a := by
   have hsel := sel0_eq_spec reg rd log (eff reg rd log a) hs hk
